@@ -33,6 +33,7 @@ import (
 	"go/constant"
 	"go/token"
 	"go/types"
+	"math/big"
 	"os"
 	"sort"
 	"strings"
@@ -42,6 +43,9 @@ import (
 
 // functions to translate, in dependency order (SSA RelString relative to the root package)
 var formulaFns = []string{
+	// the byte encoding of a field element; callers keep the primitives `Fe.bytes` / `Fe.isNegative`, which these ties
+	// (with `field_Element_Bytes_eq`, `field_Element_IsNegative_eq`) show to be what the Go code computes
+	"(*field.Element).bytes", "(*field.Element).Bytes", "(*field.Element).IsNegative",
 	"(*field.Element).Negate", "(*field.Element).Absolute", "(*field.Element).Equal", "(*field.Element).SqrtRatio",
 	"(*projP2).Zero", "(*projCached).Zero", "(*affineCached).Zero",
 	"(*projP2).FromP1xP1", "(*projP2).FromP3", "(*Point).fromP1xP1", "(*Point).fromP2",
@@ -63,10 +67,17 @@ var formulaFns = []string{
 	"(*Scalar).Invert", // the `pow2k` loops have constant trip counts at the call sites: executed in place
 	"(*Scalar).signedRadix16", // result type `Res`; the scalar multiplications keep the total primitive `Scalar.radix16Digits`
 	"(*Point).ScalarMult", "(*Point).ScalarBaseMult", // 64 unrolled iterations each; (*nafLookupTable8).FromP3 is left out: 64 unrolled entries, the rfl tie needs minutes
+	// loops kept as loops (`formulaLoopFns`, loops.go); result type `Res`
+	"(*nafLookupTable5).SelectInto", "(*nafLookupTable8).SelectInto", // index `x/2` checked at run time
+	"(*Scalar).nonAdjacentForm",
+	"(*Point).VarTimeDoubleScalarBaseMult",
+	"(*Point).MultiScalarMult", "(*Point).VarTimeMultiScalarMult",
+	"(*nafLookupTable8).FromP3", // 63 iterations kept as a loop (`formulaForceLoop`): unrolled, the `rfl` of the tie needs minutes
 }
 
 // unexported helpers that fill a caller-provided buffer: parameter positions that may be written besides the receiver
 var formulaOutParams = map[string]map[int]bool{
+	"(*field.Element).bytes": {1: true},
 	"(*Point).bytes": {1: true}, "(*Point).bytesMontgomery": {1: true}, "(*Point).extendedCoordinates": {1: true},
 	"(*Scalar).bytes": {1: true},
 }
@@ -122,6 +133,10 @@ var formulaPrims = map[string]prim{
 	// exhaustively per generated point), primitives here
 	"(*Scalar).signedRadix16":          {"Scalar.radix16Digits", []int{0}, -1, "val"},
 	"crypto/subtle.ConstantTimeByteEq": {"Point.ctByteEq", []int{0, 1}, -1, "val"},
+	"(encoding/binary.littleEndian).Uint64": {"Scalar.le64", []int{1}, -1, "val"},
+	// field/fe.go below `Bytes`: the reduction (a kernel of T1) and the byte-order helper
+	"(*field.Element).reduce":                  {"Fe.reduce", []int{0}, 0, "recv"},
+	"(encoding/binary.littleEndian).PutUint64": {"Fe.putLE64A", []int{2}, 1, "unit"},
 }
 
 // explicit `panic(msg)` statements: message -> class of the panic in the model (`Res.panic class`).  A function that
@@ -129,11 +144,26 @@ var formulaPrims = map[string]prim{
 var formulaPanics = map[string]string{
 	"scalar has high bit set illegally":                                      "highbit",
 	"edwards25519: internal error: setShortBytes called with a long string": "internal",
+	"w must be at least 2 by the definition of NAF":                         "naf-w",
+	"NAF digits must fit in int8":                                           "naf-w",
+	"edwards25519: called MultiScalarMult with different size inputs":        "length",
+	"edwards25519: called VarTimeMultiScalarMult with different size inputs": "length",
 }
 
 // procedures (methods without results) whose effect is on a parameter other than the receiver: the generated definition
 // returns the new value of that parameter, and the receiver must come out as it went in
-var formulaResultParam = map[string]int{"(*projLookupTable).SelectInto": 1, "(*affineLookupTable).SelectInto": 1}
+var formulaResultParam = map[string]int{"(*projLookupTable).SelectInto": 1, "(*affineLookupTable).SelectInto": 1,
+	"(*nafLookupTable5).SelectInto": 1, "(*nafLookupTable8).SelectInto": 1}
+
+// functions in which `a[k] |= v` on a byte array is emitted as `Bin.orAt a k v` (= `a.set! k (a[k]! ||| v)`): in a long
+// chain of such updates the array is then mentioned once per step, which keeps the definitional check of the tie linear
+var formulaRmwFns = map[string]bool{"(*field.Element).bytes": true}
+
+// callers that call the TRANSLATED version of a callee that is a primitive elsewhere (`Res`-valued: its panics propagate)
+var formulaNoPrim = map[string]map[string]bool{"(*Point).MultiScalarMult": {"(*Scalar).signedRadix16": true}}
+
+// primitive callees that index their byte-slice argument: argument position -> number of bytes it must be known to have
+var formulaPrimMinLen = map[string]map[int]int64{"(encoding/binary.littleEndian).Uint64": {1: 8}}
 
 type fplace struct {
 	key string     // "p1.x", "l3", "g:d2"
@@ -160,6 +190,18 @@ type fval struct {
 	nonneg         bool  // a symbolic integer known to be >= 0 as a mathematical integer (lengths)
 	ver            int   // store version at a fallible call (results in pair form)
 	str            string // string constant (kind "str" / "iface")
+	// symbolic-index element of an array / made slice held in `place` (kind "ielem"): `place[idx]!` followed by `ipath`
+	idx, ipath string
+	// conditions: the fact (key of `facts`, with numeric bound in `ub`) that holds when the condition is true / false
+	factT, factF string
+	// conditions `len(a) != len(b)` / `==` on slices of unknown length: the two length terms
+	eqA, eqB string
+	eqNeg    bool
+	// a byte loaded from a byte array (`a[k]`), or `a[k] | v` of such a byte: the array's place, k, the store version at the load, v
+	ldKey          string
+	ldIdx          int64
+	ldVer          int
+	ldOther        string
 }
 
 type ftr struct {
@@ -182,6 +224,37 @@ type ftr struct {
 	nro    int
 	mayPanic bool // the function contains a panic statement: result type `Res T`
 	retLen   int64 // length of the returned byte slice when it is a slice over an array (0: unknown)
+	// loops kept as loops (functions of `formulaLoopFns`)
+	loopsOn   bool
+	fname     string // the function being translated
+	needRes   bool                          // a `Res`-valued construct was met in a function not yet typed `Res`: retranslate
+	loops     map[*ssa.BasicBlock]*natLoop  // header -> natural loop
+	trials    []*natLoop                    // loops being unrolled on trial (a symbolic branch inside aborts the trial)
+	abortLoop *natLoop                      // the trial to abort
+	frame     *loopFrame                    // the loop whose body is being executed symbolically
+	nloop     int
+	facts     map[string]bool               // path facts "i<n" (index checks already made, loop conditions)
+	rootTy    map[string]types.Type         // root of a place -> its type
+	wlog      map[string]bool               // roots written (while discovering the state of a loop)
+	clobber   map[string]bool               // Lean types of parameters written so far (elements of slice parameters of that type may be stale)
+	skipFirst bool                          // the next block is entered without evaluating its phis (loop header of a body run)
+	ub        map[string]int64              // path facts: Lean Nat term -> exclusive upper bound
+	lenEq     map[string]string             // path facts: length term -> an equal length term (canonical representative)
+}
+
+type natLoop struct {
+	header *ssa.BasicBlock
+	blocks map[*ssa.BasicBlock]bool
+}
+
+type loopFrame struct {
+	L      *natLoop
+	id     int
+	phis   []*ssa.Phi
+	roots  []fplace
+	exit   *ssa.BasicBlock // the block all exits lead to
+	exitPred *ssa.BasicBlock
+	outer  *loopFrame
 }
 
 type fsnap struct {
@@ -190,12 +263,28 @@ type fsnap struct {
 	nloc   int
 	guards []string
 	lens   map[string]int64
+	facts  map[string]bool
+	clobber map[string]bool
+	ub     map[string]int64
+	lenEq  map[string]string
 }
 
 func (t *ftr) snapshot() fsnap {
-	s := fsnap{store: map[string]fval{}, vals: map[ssa.Value]fval{}, nloc: t.nloc, guards: append([]string(nil), t.guards...), lens: map[string]int64{}}
+	s := fsnap{store: map[string]fval{}, vals: map[ssa.Value]fval{}, nloc: t.nloc, guards: append([]string(nil), t.guards...), lens: map[string]int64{}, facts: map[string]bool{}, clobber: map[string]bool{}, ub: map[string]int64{}, lenEq: map[string]string{}}
+	for k, v := range t.ub {
+		s.ub[k] = v
+	}
+	for k, v := range t.lenEq {
+		s.lenEq[k] = v
+	}
 	for k, v := range t.lens {
 		s.lens[k] = v
+	}
+	for k, v := range t.facts {
+		s.facts[k] = v
+	}
+	for k, v := range t.clobber {
+		s.clobber[k] = v
 	}
 	for k, v := range t.store {
 		s.store[k] = v
@@ -211,6 +300,19 @@ func (t *ftr) restore(s fsnap) {
 	t.lens = map[string]int64{}
 	for k, v := range s.lens {
 		t.lens[k] = v
+	}
+	t.facts, t.clobber, t.ub, t.lenEq = map[string]bool{}, map[string]bool{}, map[string]int64{}, map[string]string{}
+	for k, v := range s.ub {
+		t.ub[k] = v
+	}
+	for k, v := range s.lenEq {
+		t.lenEq[k] = v
+	}
+	for k, v := range s.facts {
+		t.facts[k] = v
+	}
+	for k, v := range s.clobber {
+		t.clobber[k] = v
 	}
 	for k, v := range s.store {
 		t.store[k] = v
@@ -369,6 +471,14 @@ func (t *ftr) leanTypeOf(ty types.Type) string {
 	if a, ok := ty.Underlying().(*types.Array); ok {
 		return "(Array " + t.leanTypeOf(a.Elem()) + ")"
 	}
+	if sl, ok := ty.Underlying().(*types.Slice); ok {
+		// a slice is modelled by the array of its elements' values (slices of pointers: of the pointees' values)
+		el := sl.Elem()
+		if pt, ok := el.Underlying().(*types.Pointer); ok {
+			el = pt.Elem()
+		}
+		return "(Array " + t.leanTypeOf(el) + ")"
+	}
 	if st, ok := ty.Underlying().(*types.Struct); ok {
 		if fs := realFields(st); len(fs) == 1 {
 			return t.leanTypeOf(fs[0].Type())
@@ -444,6 +554,17 @@ func (t *ftr) pack(p fplace) string {
 	for _, k := range ks {
 		fs = append(fs, t.pack(fplace{p.key + k.seg, k.ty}))
 	}
+	if arr, ok := p.ty.Underlying().(*types.Array); ok && arr.Len() > 8 {
+		if bits, _ := intBits(arr.Elem()); bits > 0 {
+			zero := true
+			for _, f := range fs {
+				zero = zero && f == "0"
+			}
+			if zero {
+				return fmt.Sprintf("(Array.replicate %d 0)", arr.Len())
+			}
+		}
+	}
 	if ls, ok := leanStruct[namedName(p.ty)]; ok {
 		return "(⟨" + strings.Join(fs, ", ") + "⟩ : " + ls + ")"
 	}
@@ -481,6 +602,7 @@ func (t *ftr) unpack(p fplace, term string) {
 		t.fail("store through a pointer into the backing array of a slice argument (%s)", p.key)
 	}
 	t.ver++
+	t.noteWrite(p.key)
 	t.ensure(p.key)
 	for k := range t.store {
 		if strings.HasPrefix(k, p.key+".") || strings.HasPrefix(k, p.key+"[") {
@@ -525,6 +647,10 @@ func (t *ftr) value(v ssa.Value) fval {
 			tm := constant.ToInt(x.Value).ExactString()
 			if n < 0 {
 				tm = "(" + tm + ")"
+				if bits, _ := intBits(x.Type()); bits > 8 && t.loopsOn {
+					// integer types other than int8 are modelled by their two's complement representatives
+					tm = new(big.Int).Add(new(big.Int).Lsh(big.NewInt(1), uint(bits)), big.NewInt(n)).String()
+				}
 			}
 			return fval{kind: "term", term: tm, ty: x.Type(), conc: true, n: n}
 		}
@@ -553,6 +679,9 @@ func (t *ftr) value(v ssa.Value) fval {
 			t.initPlaceConst(fplace{key, el}, lt)
 			return fval{kind: "ptr", place: fplace{key, el}, ty: x.Type()}
 		}
+		if formulaUnitGlobals[name] {
+			return fval{kind: "unitptr", ty: x.Type()}
+		}
 		t.fail("package-level variable %s is not in the table of constants", name)
 		return fval{kind: "term", term: "default"}
 	}
@@ -578,8 +707,19 @@ func (t *ftr) argTerm(v fval) string {
 	switch v.kind {
 	case "ptr", "bslice":
 		return t.pack(v.place)
-	case "term":
+	case "term", "pslice":
 		return v.term
+	case "vptr":
+		// an element of a slice-of-pointers parameter: it may share storage with a pointer parameter of the same type,
+		// so its value is the entry value only as long as no such parameter has been written
+		if pt, ok := v.ty.Underlying().(*types.Pointer); ok && t.clobber[t.leanTypeOf(pt.Elem())] {
+			t.fail("read of an element of a slice parameter after a write to a parameter that may share its storage")
+		}
+		return v.term
+	case "ielem":
+		return t.loadElem(v)
+	case "mslice":
+		return t.pack(v.place)
 	}
 	t.fail("argument of kind %s", v.kind)
 	return "default"
@@ -600,6 +740,14 @@ func (t *ftr) call(in *ssa.Call) fval {
 			if arr, ok := a.place.ty.Underlying().(*types.Array); ok {
 				return fval{kind: "term", term: fmt.Sprint(arr.Len()), ty: in.Type(), conc: true, n: arr.Len()}
 			}
+		}
+		if a.kind == "pslice" {
+			lt := t.canonLen(a.term + ".size")
+			return fval{kind: "term", term: lt, ty: in.Type(), lenOf: lt, nonneg: true}
+		}
+		if a.kind == "mslice" {
+			lt := t.canonLen(a.term)
+			return fval{kind: "term", term: lt, ty: in.Type(), lenOf: lt, nonneg: true}
 		}
 		t.fail("len of a %s", a.kind)
 		return fval{kind: "term", term: "default"}
@@ -635,17 +783,25 @@ func (t *ftr) call(in *ssa.Call) fval {
 			for _, e := range args[0].elems {
 				t.guards = append(t.guards, e.place.key)
 			}
+		} else if len(args) == 1 && args[0].kind == "pslice" {
+			t.guards = append(t.guards, args[0].term+"[*]") // every element of the slice parameter
+			_ = t.argTerm(fval{kind: "vptr", term: args[0].term, ty: args[0].ty.Underlying().(*types.Slice).Elem()})
 		} else {
 			t.fail("checkInitialized: unexpected argument")
 		}
 		return fval{kind: "tuple"}
 	}
-	if p, ok := formulaPrims[name]; ok {
+	if p, ok := formulaPrims[name]; ok && !formulaNoPrim[t.fname][name] {
 		var as []string
 		for _, i := range p.reads {
 			if i >= len(args) {
 				t.fail("%s: missing argument", name)
 				return fval{kind: "term", term: "default"}
+			}
+			if m, ok := formulaPrimMinLen[name][i]; ok {
+				if n, known := t.lens[args[i].term]; args[i].kind != "term" || !known || n < m {
+					t.fail("%s: argument %d is not known to have at least %d bytes", name, i, m)
+				}
 			}
 			as = append(as, t.argTerm(args[i]))
 		}
@@ -656,11 +812,7 @@ func (t *ftr) call(in *ssa.Call) fval {
 			term = t.let(p.lean + " " + strings.Join(as, " "))
 		}
 		if p.write >= 0 {
-			if args[p.write].kind != "ptr" {
-				t.fail("%s: receiver is not a pointer", name)
-			} else {
-				t.unpack(args[p.write].place, term)
-			}
+			t.writeTo(args[p.write], term, name)
 		}
 		switch p.ret {
 		case "recv":
@@ -677,6 +829,12 @@ func (t *ftr) call(in *ssa.Call) fval {
 		if pt, ok := in.Type().Underlying().(*types.Pointer); ok {
 			pl := fplace{"g:basepointTable", pt.Elem()}
 			t.initPlaceConst(pl, "Point.basepointTable")
+			return fval{kind: "ptr", place: pl, ty: in.Type()}
+		}
+	case "basepointNafTable":
+		if pt, ok := in.Type().Underlying().(*types.Pointer); ok {
+			pl := fplace{"g:basepointNafTable", pt.Elem()}
+			t.initPlaceConst(pl, "Point.basepointNafTable")
 			return fval{kind: "ptr", place: pl, ty: in.Type()}
 		}
 	case "copyFieldElement":
@@ -719,13 +877,21 @@ func (t *ftr) call(in *ssa.Call) fval {
 		return t.inline(fn, args)
 	}
 	if sg, ok := t.done[name]; ok {
-		if strings.HasPrefix(sg.ret, "Res ") {
-			t.fail("call of %s, which contains a panic statement", name)
+		isRes := strings.HasPrefix(sg.ret, "Res ")
+		if isRes && !t.resCtx() {
 			return fval{kind: "term", term: "default"}
 		}
 		var as []string
-		for _, a := range args {
+		for i, a := range args {
 			as = append(as, t.argTerm(a))
+			if a.kind == "ielem" || a.kind == "vptr" {
+				// an element with a symbolic index: it must not possibly share storage with another argument
+				for j, b := range args {
+					if j != i && (b.kind == "ptr" || b.kind == "ielem" || b.kind == "vptr") && types.Identical(a.ty, b.ty) {
+						t.fail("%s: an element with a symbolic index may share storage with another argument", name)
+					}
+				}
+			}
 		}
 		// actual arguments that share storage select the callee's definition for that aliasing pattern
 		sfx, ident := "", true
@@ -752,7 +918,13 @@ func (t *ftr) call(in *ssa.Call) fval {
 			t.used = map[string]bool{}
 		}
 		t.used[callee] = true
-		r := t.let(callee + " " + strings.Join(as, " "))
+		var r string
+		if isRes {
+			// a callee that can panic: the rest of the definition is the continuation of a `Res.bind`
+			r = t.bind(callee + " " + strings.Join(as, " "))
+		} else {
+			r = t.let(callee + " " + strings.Join(as, " "))
+		}
 		for i, a := range args {
 			if formulaOutParams[name][i] && (a.kind == "ptr" || a.kind == "bslice") {
 				// a buffer filled by the callee: its definition does not return the buffer's new value, so the
@@ -767,20 +939,20 @@ func (t *ftr) call(in *ssa.Call) fval {
 				{kind: "optptr", optVar: r, place: args[0].place, ver: t.ver},
 				{kind: "opterr2", optVar: r, ver: t.ver}}}
 		}
-		if _, isPtr := in.Type().Underlying().(*types.Pointer); isPtr && len(args) > 0 && args[0].kind == "ptr" {
+		if _, isPtr := in.Type().Underlying().(*types.Pointer); isPtr && len(args) > 0 && (args[0].kind == "ptr" || args[0].kind == "ielem") {
 			// method returning its receiver: the result is the receiver's new value
-			t.unpack(args[0].place, r)
+			t.writeTo(args[0], r, name)
 			return args[0]
 		}
-		if tup, isTup := in.Type().(*types.Tuple); isTup && tup.Len() == 0 && fn.Signature.Recv() != nil && len(args) > 0 && args[0].kind == "ptr" {
+		if tup, isTup := in.Type().(*types.Tuple); isTup && tup.Len() == 0 && fn.Signature.Recv() != nil && len(args) > 0 && (args[0].kind == "ptr" || args[0].kind == "ielem") {
 			// procedure method: the generated definition returns the new value of the receiver (or of the parameter
 			// named in `formulaResultParam`)
 			ri := formulaResultParam[name]
-			if ri >= len(args) || args[ri].kind != "ptr" {
+			if ri >= len(args) || (args[ri].kind != "ptr" && args[ri].kind != "ielem") {
 				t.fail("%s: result parameter is not a pointer", name)
 				return fval{kind: "tuple"}
 			}
-			t.unpack(args[ri].place, r)
+			t.writeTo(args[ri], r, name)
 			return fval{kind: "tuple"}
 		}
 		if sg.retLen > 0 && isByteSeq(in.Type()) {
@@ -796,6 +968,7 @@ func (t *ftr) call(in *ssa.Call) fval {
 func (t *ftr) forget(p fplace) {
 	t.ensure(p.key)
 	t.ver++
+	t.noteWrite(p.key)
 	for k := range t.store {
 		if k == p.key || strings.HasPrefix(k, p.key+".") || strings.HasPrefix(k, p.key+"[") {
 			delete(t.store, k)
@@ -912,12 +1085,32 @@ func (t *ftr) instr(in ssa.Instruction) (ret *fval) {
 		key := fmt.Sprintf("l%d", t.nloc)
 		t.nloc++
 		p := fplace{key, el}
+		t.rootTy[key] = el
 		t.initPlace(p, "", true)
 		t.vals[x] = fval{kind: "ptr", place: p, ty: x.Type()}
 	case *ssa.FieldAddr:
 		b := t.value(x.X)
+		if b.kind == "ielem" {
+			st := b.ty.Underlying().(*types.Pointer).Elem()
+			for _, k := range t.kids(st) {
+				if k.seg == "."+st.Underlying().(*types.Struct).Field(x.Field).Name() {
+					b.ipath += k.proj
+					b.ty = x.Type()
+					t.vals[x] = b
+					return
+				}
+			}
+			t.fail("FieldAddr of an element: no such field")
+			return
+		}
 		if b.kind != "ptr" {
 			t.fail("FieldAddr of a non-pointer")
+			return
+		}
+		if isElement(b.place.ty) {
+			// a limb of a field element (a leaf value `Fe`): only read
+			fl := b.place.ty.Underlying().(*types.Struct).Field(x.Field)
+			t.vals[x] = fval{kind: "fproj", place: b.place, str: fl.Name(), ty: x.Type()}
 			return
 		}
 		st := b.place.ty.Underlying().(*types.Struct)
@@ -926,8 +1119,20 @@ func (t *ftr) instr(in ssa.Instruction) (ret *fval) {
 	case *ssa.IndexAddr:
 		b := t.value(x.X)
 		ix := t.value(x.Index)
+		if b.kind == "ielem" && ix.conc {
+			// constant index into an array that is itself an element with a symbolic index (`digits[j][63]`)
+			arr, ok := b.ty.Underlying().(*types.Pointer).Elem().Underlying().(*types.Array)
+			if !ok || ix.n < 0 || ix.n >= arr.Len() {
+				t.fail("IndexAddr into a non-array or out of range")
+				return
+			}
+			b.ipath += fmt.Sprintf("[%d]!", ix.n)
+			b.ty = x.Type()
+			t.vals[x] = b
+			return
+		}
 		if !ix.conc {
-			t.fail("IndexAddr with a non-constant index")
+			t.symIndexAddr(x, b, ix)
 			return
 		}
 		if b.kind == "term" {
@@ -1039,7 +1244,28 @@ func (t *ftr) instr(in ssa.Instruction) (ret *fval) {
 				a.term = fmt.Sprint(a.n == 1)
 				t.vals[x] = a
 			} else {
-				t.vals[x] = fval{kind: "term", term: "(!" + a.term + ")", ty: x.Type()}
+				t.vals[x] = fval{kind: "term", term: "(!" + a.term + ")", ty: x.Type(), factT: a.factF, factF: a.factT}
+			}
+			return
+		}
+		if x.Op == token.SUB && isInt8(x.Type()) {
+			a := t.value(x.X)
+			if a.kind != "term" {
+				t.fail("negation of a %s", a.kind)
+				return
+			}
+			if a.conc {
+				n := -a.n
+				if n == 128 {
+					n = -128
+				}
+				tm := fmt.Sprint(n)
+				if n < 0 {
+					tm = "(" + tm + ")"
+				}
+				t.vals[x] = fval{kind: "term", term: tm, ty: x.Type(), conc: true, n: n}
+			} else {
+				t.vals[x] = fval{kind: "term", term: t.let("I8.neg " + a.term), ty: x.Type()}
 			}
 			return
 		}
@@ -1049,10 +1275,19 @@ func (t *ftr) instr(in ssa.Instruction) (ret *fval) {
 		}
 		b := t.value(x.X)
 		switch b.kind {
+		case "ielem":
+			t.vals[x] = fval{kind: "term", term: t.loadElem(b), ty: x.Type()}
+		case "pelem":
+			// element of a slice-of-pointers parameter: a pointer whose pointee is only read
+			t.vals[x] = fval{kind: "vptr", term: b.term, ty: x.Type()}
+		case "unitptr":
+			t.vals[x] = fval{kind: "unit", ty: x.Type()}
+		case "fproj":
+			t.vals[x] = fval{kind: "term", term: t.pack(b.place) + "." + b.str, ty: x.Type()}
 		case "elem":
 			t.vals[x] = fval{kind: "term", term: b.term, ty: x.Type()}
 		case "belem":
-			t.vals[x] = fval{kind: "term", term: fmt.Sprintf("%s[%d]!", t.pack(b.place), b.n), ty: x.Type()}
+			t.vals[x] = fval{kind: "term", term: fmt.Sprintf("%s[%d]!", t.pack(b.place), b.n), ty: x.Type(), ldKey: b.place.key, ldIdx: b.n, ldVer: t.ver}
 		case "ptrptr":
 			t.vals[x] = fval{kind: "ptr", place: b.place, ty: x.Type()}
 		case "ptr":
@@ -1060,7 +1295,14 @@ func (t *ftr) instr(in ssa.Instruction) (ret *fval) {
 				t.ensure(b.place.key)
 				t.vals[x] = t.store[b.place.key]
 			} else {
-				t.vals[x] = fval{kind: "term", term: t.pack(b.place), ty: x.Type()}
+				v := fval{kind: "term", term: t.pack(b.place), ty: x.Type()}
+				if arr, ok := b.place.ty.Underlying().(*types.Array); ok && !isByteSeq(b.place.ty) && arr.Len() <= 16 {
+					// the value of a small array: its elements are kept for constant indexing (`ssa.Index`)
+					for _, k := range t.kids(b.place.ty) {
+						v.elems = append(v.elems, fval{kind: "term", term: t.pack(fplace{b.place.key + k.seg, k.ty}), ty: k.ty})
+					}
+				}
+				t.vals[x] = v
 			}
 		default:
 			t.fail("load through a %s", b.kind)
@@ -1069,7 +1311,16 @@ func (t *ftr) instr(in ssa.Instruction) (ret *fval) {
 		a := t.value(x.Addr)
 		v := t.value(x.Val)
 		if a.kind == "belem" && v.kind == "term" {
+			if v.ldOther != "" && v.ldKey == a.place.key && v.ldIdx == a.n && v.ldVer == t.ver {
+				// `a[k] |= v` with nothing stored in between: one primitive that mentions the array once
+				t.unpack(a.place, t.let(fmt.Sprintf("Bin.orAt %s %d %s", t.pack(a.place), a.n, v.ldOther)))
+				return
+			}
 			t.unpack(a.place, t.let(fmt.Sprintf("%s.set! %d %s", t.pack(a.place), a.n, v.term)))
+			return
+		}
+		if a.kind == "ielem" {
+			t.writeTo(a, t.argTerm(v), "store")
 			return
 		}
 		if a.kind != "ptr" {
@@ -1079,6 +1330,7 @@ func (t *ftr) instr(in ssa.Instruction) (ret *fval) {
 		if v.kind == "ptr" {
 			t.ensure(a.place.key)
 			t.ver++
+			t.noteWrite(a.place.key)
 			t.store[a.place.key] = v
 		} else {
 			t.unpack(a.place, t.argTerm(v))
@@ -1199,6 +1451,19 @@ func (t *ftr) instr(in ssa.Instruction) (ret *fval) {
 				}
 				fn := map[token.Token]string{token.ADD: "add", token.SUB: "sub", token.XOR: "xor", token.AND: "and", token.OR: "or"}[x.Op]
 				t.vals[x] = fval{kind: "term", term: t.let(fmt.Sprintf("I8.%s %s %s", fn, a.term, b.term)), ty: x.Type()}
+			case token.LSS, token.GTR, token.LEQ, token.GEQ:
+				// int8 values are the integers they denote
+				if !isInt8(x.Y.Type()) {
+					t.fail("int8 %s with an operand of another type", x.Op)
+					return
+				}
+				t.vals[x] = fval{kind: "term", term: fmt.Sprintf("(decide (%s %s %s))", a.term, x.Op, b.term), ty: x.Type()}
+			case token.QUO:
+				if !b.conc || b.n == 0 || !isInt8(x.Y.Type()) {
+					t.fail("int8 division by a variable or by zero")
+					return
+				}
+				t.vals[x] = fval{kind: "term", term: t.let(fmt.Sprintf("I8.quo %s %s", a.term, b.term)), ty: x.Type()}
 			default:
 				t.fail("int8 operation %s", x.Op)
 			}
@@ -1212,21 +1477,56 @@ func (t *ftr) instr(in ssa.Instruction) (ret *fval) {
 				r.lenTerm, r.lenN, r.lenNeq = a.lenOf, b.n, x.Op == token.NEQ
 			} else if b.lenOf != "" && a.conc {
 				r.lenTerm, r.lenN, r.lenNeq = b.lenOf, a.n, x.Op == token.NEQ
+			} else if a.lenOf != "" && b.lenOf != "" {
+				r.eqA, r.eqB, r.eqNeg = a.lenOf, b.lenOf, x.Op == token.NEQ
 			}
 			t.vals[x] = r
 		case token.LSS, token.GTR, token.LEQ, token.GEQ:
 			// order comparisons on the natural-number representatives: unsigned operands, or signed operands that are
 			// known to be non-negative (lengths, non-negative constants)
-			_, signed := intBits(x.X.Type())
+			bits, signed := intBits(x.X.Type())
 			okA, okB := a.nonneg || (a.conc && a.n >= 0), b.nonneg || (b.conc && b.n >= 0)
-			if bits, _ := intBits(x.X.Type()); bits == 0 || (signed && !(okA && okB)) {
-				t.fail("comparison %s of signed symbolic integers", x.Op)
+			if bits == 0 {
+				t.fail("comparison %s of non-integers", x.Op)
 				return
 			}
-			t.vals[x] = fval{kind: "term", term: fmt.Sprintf("(decide (%s %s %s))", a.term, x.Op, b.term), ty: x.Type()}
+			if signed && !(okA && okB) {
+				// signed comparison of two's complement representatives
+				if !t.loopsOn {
+					t.fail("comparison %s of signed symbolic integers", x.Op)
+					return
+				}
+				var tm string
+				switch x.Op {
+				case token.LSS:
+					tm = fmt.Sprintf("(S.lt %d %s %s)", bits, a.term, b.term)
+				case token.LEQ:
+					tm = fmt.Sprintf("(S.le %d %s %s)", bits, a.term, b.term)
+				case token.GTR:
+					tm = fmt.Sprintf("(S.lt %d %s %s)", bits, b.term, a.term)
+				case token.GEQ:
+					tm = fmt.Sprintf("(S.le %d %s %s)", bits, b.term, a.term)
+				}
+				t.vals[x] = fval{kind: "term", term: tm, ty: x.Type()}
+				return
+			}
+			r := fval{kind: "term", term: fmt.Sprintf("(decide (%s %s %s))", a.term, x.Op, b.term), ty: x.Type()}
+			// the fact `lo < hi` (on natural numbers) that the outcome of the test establishes
+			switch x.Op {
+			case token.LSS:
+				r.factT = a.term + "<" + b.term
+			case token.GTR:
+				r.factT = b.term + "<" + a.term
+			case token.GEQ:
+				r.factF = a.term + "<" + b.term
+			case token.LEQ:
+				r.factF = b.term + "<" + a.term
+			}
+			t.vals[x] = r
 		case token.SHL:
 			bits, _ := intBits(x.X.Type())
-			if bits == 0 || !b.conc {
+			if _, cs := intBits(x.Y.Type()); bits == 0 || (!b.conc && (cs || !t.loopsOn)) {
+				// (a negative count panics: only counts of unsigned types may be symbolic)
 				t.fail("left shift by a variable count")
 				return
 			}
@@ -1236,14 +1536,54 @@ func (t *ftr) instr(in ssa.Instruction) (ret *fval) {
 				t.fail("shift of a signed value")
 				return
 			}
+			if _, cs := intBits(x.Y.Type()); !b.conc && cs {
+				t.fail("right shift by a variable count of a signed type")
+				return
+			}
 			t.vals[x] = fval{kind: "term", term: fmt.Sprintf("(%s >>> %s)", a.term, b.term), ty: x.Type()}
+		case token.ADD, token.SUB, token.MUL:
+			// wrapping arithmetic on the representatives
+			bits, _ := intBits(x.Type())
+			if bits == 0 || !t.loopsOn {
+				t.fail("binary %s on symbolic integers", x.Op)
+				return
+			}
+			fn := map[token.Token]string{token.ADD: "add", token.SUB: "sub", token.MUL: "mul"}[x.Op]
+			r := t.let(fmt.Sprintf("U.%s %d %s %s", fn, bits, a.term, b.term))
+			if x.Op == token.ADD {
+				// an upper bound that cannot wrap
+				if ua, ok := t.ubOf(a); ok {
+					if ub, ok := t.ubOf(b); ok && ua+ub < 1<<40 && (bits > 40 || ua+ub-1 <= 1<<uint(bits)) {
+						t.ub[r] = ua + ub - 1 // (the sum cannot wrap)
+					}
+				}
+			}
+			t.vals[x] = fval{kind: "term", term: r, ty: x.Type()}
+		case token.QUO, token.REM:
+			bits, signed := intBits(x.X.Type())
+			if bits == 0 || signed || !b.conc || b.n <= 0 || !t.loopsOn {
+				t.fail("division other than of an unsigned value by a positive constant")
+				return
+			}
+			op := map[token.Token]string{token.QUO: "/", token.REM: "%"}[x.Op]
+			r := fmt.Sprintf("(%s %s %d)", a.term, op, b.n)
+			if x.Op == token.REM {
+				t.ub[r] = b.n
+			} else if ua, ok := t.ubOf(a); ok {
+				t.ub[r] = (ua-1)/b.n + 1
+			}
+			t.vals[x] = fval{kind: "term", term: r, ty: x.Type()}
 		default:
 			op, ok := fBinops[x.Op]
 			if !ok {
 				t.fail("binary %s on symbolic integers", x.Op)
 				return
 			}
-			t.vals[x] = fval{kind: "term", term: t.let(fmt.Sprintf("%s %s %s", a.term, op, b.term)), ty: x.Type()}
+			r := fval{kind: "term", term: t.let(fmt.Sprintf("%s %s %s", a.term, op, b.term)), ty: x.Type()}
+			if x.Op == token.OR && a.ldKey != "" && a.ldOther == "" && formulaRmwFns[t.fname] {
+				r.ldKey, r.ldIdx, r.ldVer, r.ldOther = a.ldKey, a.ldIdx, a.ldVer, b.term
+			}
+			t.vals[x] = r
 		}
 	case *ssa.Convert:
 		a := t.value(x.X)
@@ -1301,6 +1641,21 @@ func (t *ftr) instr(in ssa.Instruction) (ret *fval) {
 		}
 		a.ty = x.Type()
 		t.vals[x] = a
+	case *ssa.Index:
+		// element of an array VALUE
+		b, ix := t.value(x.X), t.value(x.Index)
+		arr, ok := x.X.Type().Underlying().(*types.Array)
+		if b.kind != "term" || !ok || !ix.conc || ix.n < 0 || ix.n >= arr.Len() {
+			t.fail("Index of an array value with a symbolic or out-of-range index")
+			return
+		}
+		if len(b.elems) == int(arr.Len()) {
+			t.vals[x] = b.elems[ix.n]
+		} else {
+			t.vals[x] = fval{kind: "term", term: fmt.Sprintf("%s[%d]!", b.term, ix.n), ty: x.Type()}
+		}
+	case *ssa.MakeSlice:
+		t.makeSlice(x)
 	case *ssa.ChangeType:
 		t.vals[x] = t.value(x.X)
 	case *ssa.MakeInterface:
@@ -1438,8 +1793,54 @@ func (t *ftr) run(b, pred *ssa.BasicBlock) {
 		if t.err != "" {
 			return
 		}
+		skip := t.skipFirst
+		t.skipFirst = false
+		if t.loopsOn && !skip {
+			// loops unrolled on trial that are left
+			for len(t.trials) > 0 && !t.trials[len(t.trials)-1].blocks[b] {
+				t.trials = t.trials[:len(t.trials)-1]
+			}
+			// the body of a loop in loop form ends at a back edge or at an exit
+			if fr := t.frame; fr != nil && pred != nil {
+				if b == fr.L.header {
+					t.loopLeaf(fr, pred, true, nil)
+					return
+				}
+				if !fr.L.blocks[b] {
+					t.loopLeaf(fr, pred, false, b)
+					return
+				}
+			}
+			// entry of a loop: unrolled on trial; if a symbolic branch occurs inside, translated as a loop
+			if L := t.loops[b]; L != nil && pred != nil && !L.blocks[pred] && !t.onTrial(L) {
+				if !formulaForceLoop[t.fname] {
+					snap := t.fullSnapshot()
+					t.trials = append(t.trials, L)
+					t.run(b, pred)
+					if t.abortLoop != L {
+						return // the rest of the function has been executed (or an error / an outer trial is aborted)
+					}
+					t.fullRestore(snap)
+				}
+				b, pred = t.loopForm(L, pred)
+				if t.err != "" || b == nil {
+					return
+				}
+				continue
+			}
+		}
 		// phis: parallel assignment from the edge of `pred`
-		nphi := t.phis(b, pred)
+		nphi := 0
+		if skip {
+			for _, in := range b.Instrs {
+				if _, ok := in.(*ssa.Phi); !ok {
+					break
+				}
+				nphi++
+			}
+		} else {
+			nphi = t.phis(b, pred)
+		}
 		if nphi < 0 {
 			return
 		}
@@ -1466,6 +1867,14 @@ func (t *ftr) run(b, pred *ssa.BasicBlock) {
 					}
 					break
 				}
+				for _, L := range t.trials {
+					if L.blocks[b] {
+						// a branch on a symbolic condition inside a loop that is being unrolled: the loop is kept as a loop
+						t.abortLoop = L
+						t.fail("symbolic branch inside an unrolled loop")
+						return
+					}
+				}
 				snap := t.snapshot()
 				if c.optVar != "" {
 					// test of an Option-valued let: a `match`, the receiver place refined in each arm
@@ -1489,16 +1898,28 @@ func (t *ftr) run(b, pred *ssa.BasicBlock) {
 				if c.lenTerm != "" && !c.lenNeq {
 					t.lens[c.lenTerm] = c.lenN // `len(x) == n` holds in this branch
 				}
+				if c.eqA != "" && !c.eqNeg {
+					t.lenEq[c.eqA] = c.eqB
+				}
+				t.addFact(c.factT)
 				t.run(b.Succs[0], b)
 				t.lets = append(t.lets, "  ) else (")
 				t.restore(snap)
 				if c.lenTerm != "" && c.lenNeq {
 					t.lens[c.lenTerm] = c.lenN // `len(x) != n` does not hold in this branch
 				}
+				if c.eqA != "" && c.eqNeg {
+					t.lenEq[c.eqA] = c.eqB // `len(a) != len(b)` does not hold in this branch
+				}
+				t.addFact(c.factF)
 				t.run(b.Succs[1], b)
 				t.lets = append(t.lets, "  )")
 				return
 			case *ssa.Return:
+				if t.frame != nil {
+					t.fail("return inside a loop that is kept as a loop")
+					return
+				}
 				var rv fval
 				switch len(x.Results) {
 				case 0:
@@ -1672,7 +2093,21 @@ func aliasPatterns(f *ssa.Function) [][]int {
 }
 
 func translateOne(c *ssaCtx, f *ssa.Function, name string, alias []int, done map[string]*fsig) (string, *fsig, []string, string, []string) {
-	t := &ftr{c: c, f: f, store: map[string]fval{}, vals: map[ssa.Value]fval{}, done: done, lens: map[string]int64{}}
+	def, sig, guards, err, used, needRes := translateOne1(c, f, name, alias, done, false)
+	if needRes {
+		// a `Res`-valued construct (call of a function that can panic, run-time index check, loop): result type `Res T`
+		def, sig, guards, err, used, _ = translateOne1(c, f, name, alias, done, true)
+	}
+	return def, sig, guards, err, used
+}
+
+func translateOne1(c *ssaCtx, f *ssa.Function, name string, alias []int, done map[string]*fsig, forceRes bool) (string, *fsig, []string, string, []string, bool) {
+	t := &ftr{c: c, f: f, store: map[string]fval{}, vals: map[ssa.Value]fval{}, done: done, lens: map[string]int64{},
+		facts: map[string]bool{}, clobber: map[string]bool{}, ub: map[string]int64{}, lenEq: map[string]string{}, rootTy: map[string]types.Type{},
+		mayPanic: forceRes, loopsOn: formulaLoopFns[name], fname: name}
+	if t.loopsOn {
+		t.loops = naturalLoops(f)
+	}
 	var params, ptys []string
 	for i, p := range f.Params {
 		pn := fmt.Sprintf("a%d", i)
@@ -1680,9 +2115,17 @@ func translateOne(c *ssaCtx, f *ssa.Function, name string, alias []int, done map
 			pl := fplace{fmt.Sprintf("p%d", alias[i]), pt.Elem()}
 			if alias[i] == i {
 				t.initPlace(pl, pn, false)
+				t.rootTy[pl.key] = pt.Elem()
 			}
 			t.vals[p] = fval{kind: "ptr", place: pl, ty: p.Type()}
 			ptys = append(ptys, t.leanTypeOf(pt.Elem()))
+		} else if sl, ok := p.Type().Underlying().(*types.Slice); ok && !isByteSeq(p.Type()) {
+			// a slice of pointers: the array of the pointees' values (read-only; see `vptr`)
+			if _, isPtr := sl.Elem().Underlying().(*types.Pointer); !isPtr {
+				return "", nil, nil, "slice parameter whose elements are not pointers", nil, false
+			}
+			t.vals[p] = fval{kind: "pslice", term: pn, ty: p.Type()}
+			ptys = append(ptys, t.leanTypeOf(p.Type()))
 		} else {
 			t.vals[p] = fval{kind: "term", term: pn, ty: p.Type()}
 			ptys = append(ptys, t.leanTypeOf(p.Type()))
@@ -1699,7 +2142,7 @@ func translateOne(c *ssaCtx, f *ssa.Function, name string, alias []int, done map
 	}
 	t.run(f.Blocks[0], nil)
 	if t.err != "" {
-		return "", nil, nil, t.err, nil
+		return "", nil, nil, t.err, nil, t.needRes && !forceRes
 	}
 	rty := t.rty
 	var used []string
@@ -1708,7 +2151,7 @@ func translateOne(c *ssaCtx, f *ssa.Function, name string, alias []int, done map
 	}
 	sort.Strings(used)
 	def := fmt.Sprintf("/-- %s, parameters sharing storage: %v -/\ndef @NAME@ %s : %s :=\n%s\n\n", name, alias, strings.Join(params, " "), rty, strings.Join(t.lets, "\n"))
-	return def, &fsig{lean: leanIdent(name), params: ptys, ret: rty, retLen: t.retLen}, t.guards, "", used
+	return def, &fsig{lean: leanIdent(name), params: ptys, ret: rty, retLen: t.retLen}, t.guards, "", used, false
 }
 
 func quoteAll(xs []string) string {
